@@ -541,6 +541,18 @@ def run_replay(pid, path):
         rec = json.load(f)
     chk = load_check(pid, rec.get("tier", "quick"), rec.get("seed", 0))
     fails = chk.replay(rec)
+    # failing sites that belong to a recorded known finding are not violations
+    owner = {}
+    known_ids = set(f["id"] for f in load_findings(pid) if f.get("status") == "known")
+    for fid, keys in load_extension(pid).items():
+        if fid in known_ids:
+            for k in keys:
+                owner[k] = fid
+    known_fails = [s for s in fails if group_hash(s["facts"], s["obs"]) in owner]
+    fails = [s for s in fails if group_hash(s["facts"], s["obs"]) not in owner]
+    if known_fails:
+        print("(%d failing sites of this case belong to known findings: %s)" % (
+            len(known_fails), ", ".join(sorted(set(owner[group_hash(s["facts"], s["obs"])] for s in known_fails)))))
     want = (jkey(rec.get("facts")), jkey(rec.get("obs")))
     same = [s for s in fails if (jkey(jsonable(s["facts"])), jkey(jsonable(s["obs"]))) == want]
     print("replay %s: %d failing sites, recorded failure %s" % (path, len(fails), "REPRODUCED" if same else "not reproduced"))
